@@ -387,3 +387,11 @@ def idle_acceptor():
                        {"op": "stop", "result": "done"}]},
         "b": {"accepts": ["Hum"], "nw": 2, "returns": ["None"], "body": [G, {"op": "store_set", "key": "uid"}, {"op": "none"}]},
     }}
+
+
+def two_waits_timeout(timeout=8):
+    """like two_waits, but the second wait has a timeout and stops with a marker on TimeoutError."""
+    p = two_waits()
+    p["steps"]["b"]["body"] = [G, {"op": "wait", "ty": "Resp", "wid": "w2", "timeout": timeout, "reqs": {"k": 1}, "wev": True,
+                                    "on_timeout": "stop"}, G, {"op": "stop", "result": "done"}]
+    return p
